@@ -180,6 +180,31 @@ func runPart(s *sim.Sim, prop string) {
 		}
 	}
 
+	// ---- operator-written miniature rings (1..3 partitions x 0..3 tokens of the tiny alphabet, any states): the
+	// per-version oracles are evaluated on them as well
+	if prop == "C14" || prop == "C15" {
+		for k := s.Range(4, 16, "miniature-rings"); k > 0; k-- {
+			d := ring.NewPartitionRingDesc()
+			taken := map[uint32]bool{}
+			for pid := int32(0); pid < int32(s.Range(1, 3, "mini-partitions")); pid++ {
+				var toks []uint32
+				for n := s.Choose(4, "mini-ntok"); n > 0; n-- {
+					t := partTiny[s.Choose(len(partTiny), "mini-token")]
+					if !taken[t] {
+						taken[t] = true
+						toks = append(toks, t)
+					}
+				}
+				sort.Slice(toks, func(i, j int) bool { return toks[i] < toks[j] })
+				st := sim.Pick(s, "mini-state", ring.PartitionActive, ring.PartitionActive, ring.PartitionInactive, ring.PartitionPending)
+				d.Partitions[pid] = ring.PartitionDesc{Id: pid, Tokens: toks, State: st, StateTimestamp: time.Now().Unix()}
+			}
+			pw.checkVersion(d)
+			s.Probe("miniature-ring-checked")
+		}
+		pw.prevPR, pw.prevPRDesc = nil, nil
+	}
+
 	// ---- lifecyclers ---------------------------------------------------------------------------------
 	nLC := s.Range(1, 4, "lifecyclers")
 	multi := s.Chance(0.4, "multi-partition-ownership")
@@ -897,7 +922,10 @@ func (pw *partWorld) checkPartRanges(pr *ring.PartitionRing, d *ring.PartitionRi
 			covered += uint64(tr[i+1]) - uint64(tr[i]) + 1
 		}
 		for _, k := range keys {
-			owner, _ := refPartitionForKey(d, k, false)
+			owner, owned := refPartitionForKey(d, k, false)
+			if !owned {
+				owner = -1 // a ring without tokens: nobody owns anything
+			}
 			var inc bool
 			pw.try("IncludesKey", func() { inc = tr.IncludesKey(k) })
 			s.ProbeN("range-memberships-compared", 1)
@@ -911,7 +939,11 @@ func (pw *partWorld) checkPartRanges(pr *ring.PartitionRing, d *ring.PartitionRi
 			}
 		}
 	}
-	if len(d.Partitions) > 0 {
+	anyToken := false
+	for _, p := range d.Partitions {
+		anyToken = anyToken || len(p.Tokens) > 0
+	}
+	if anyToken {
 		sort.Slice(all, func(i, j int) bool { return all[i].lo < all[j].lo })
 		for i := 1; i < len(all); i++ {
 			if all[i].lo <= all[i-1].hi {
